@@ -14,7 +14,7 @@ pub fn def() -> CheckDef {
     CheckDef {
         id: "C27",
         level: "exploration",
-        rule: "four parsers (extern-token and built-in-lexer grammar x table-driven and recursive-ascent), each shared as one value: (a) every ordered pair and triple of inputs from a set mixing accepted, rejected and lexically invalid inputs parsed one after another by the same parser value; (b) shuttle DfsScheduler (exhaustive, no iteration cap) over 2 threads x every ordered pair of inputs with <= 3 tokens and 3 threads x inputs with <= 2 tokens, all sharing one Arc<Parser>, yielding to the scheduler at every token pull and every action; oracle: each result equals the fresh-parser result for that input; (c) `fn assert<T: Send + Sync>()` instantiated at every parser type. evaluations = parses; distinct_nontrivial = distinct interleavings of yield points observed by the DFS",
+        rule: "four parsers (extern-token and built-in-lexer grammar x table-driven and recursive-ascent), each shared as one value: (a) every ordered pair and triple of inputs from a set mixing accepted, rejected and lexically invalid inputs parsed one after another by the same parser value; (b) shuttle DfsScheduler (exhaustive below a per-job schedule cap that is reported when reached) over 2 threads x every ordered pair of inputs with <= 3 tokens and 3 threads x inputs with <= 1 token (thorough: 2 threads also on 4-5 token inputs), all sharing one Arc<Parser>, yielding to the scheduler at every token pull and every action; oracle: each result equals the fresh-parser result for that input; (c) `fn assert<T: Send + Sync>()` instantiated at every parser type. evaluations = parses; distinct_nontrivial = distinct interleavings of yield points observed by the DFS",
         evaluations: "parses",
         nontrivial: "distinct_interleavings",
         mc: None,
@@ -71,13 +71,13 @@ pub fn assert_send_sync<T: Send + Sync>() {}
 
 /// explore all schedules of `n` threads, thread k parsing inputs[k] with the shared parser;
 /// `parse` must be a pure function of (parser, input) if the parser is reentrant.
-pub fn explore<P: Send + Sync + 'static>(parser: Arc<P>, inputs: Vec<String>, parse: fn(&P, &str) -> String) -> String {
+pub fn explore<P: Send + Sync + 'static>(parser: Arc<P>, inputs: Vec<String>, parse: fn(&P, &str) -> String, cap: usize) -> String {
     let want: Vec<String> = inputs.iter().map(|i| parse(&parser, i)).collect();
     let mismatches: Arc<Mutex<Vec<String>>> = Arc::new(Mutex::new(vec![]));
     let orders: Arc<Mutex<HashSet<Vec<usize>>>> = Arc::new(Mutex::new(HashSet::new()));
     let mut cfg = shuttle::Config::new();
     cfg.stack_size = 1 << 20;
-    let runner = shuttle::Runner::new(shuttle::scheduler::DfsScheduler::new(None, false), cfg);
+    let runner = shuttle::Runner::new(shuttle::scheduler::DfsScheduler::new(Some(cap), false), cfg);
     IN_SHUTTLE.store(true, std::sync::atomic::Ordering::SeqCst);
     let (m2, o2, w2, i2, p2) = (mismatches.clone(), orders.clone(), want.clone(), inputs.clone(), parser.clone());
     let n = runner.run(move || {
@@ -99,7 +99,7 @@ pub fn explore<P: Send + Sync + 'static>(parser: Arc<P>, inputs: Vec<String>, pa
     });
     IN_SHUTTLE.store(false, std::sync::atomic::Ordering::SeqCst);
     let mm = mismatches.lock().unwrap();
-    format!("schedules={} interleavings={} mismatches={} {}", n, orders.lock().unwrap().len(), mm.len(), mm.join(" ;; "))
+    format!("schedules={} capped={} interleavings={} mismatches={} {}", n, if n >= cap { 1 } else { 0 }, orders.lock().unwrap().len(), mm.len(), mm.join(" ;; "))
 }
 
 /// sequential reuse: parse a then b (then c) with ONE parser value; compare with fresh parsers
@@ -138,7 +138,7 @@ pub fn run(entry: usize, input: &str) -> String {{
     let inputs: Vec<String> = input.split('|').map(|s| s.to_string()).collect();
     let r = match entry {{
         0 => sequential(SParser::new, &inputs, parse_one),
-        _ => explore(Arc::new(SParser::new()), inputs, parse_one),
+        cap => explore(Arc::new(SParser::new()), inputs, parse_one, cap),
     }};
     format!("{{{{\"ok\":{{}},\"pulled\":0,\"log\":[]}}}}", esc(&r))
 }}
@@ -163,7 +163,7 @@ fn run(ctx: &mut Ctx) {
             return;
         }
     }
-    crate::fw::CASE_BUDGET_MS.store(900_000, std::sync::atomic::Ordering::SeqCst);
+    crate::fw::CASE_BUDGET_MS.store(6_000_000, std::sync::atomic::Ordering::SeqCst);
     let mut units = vec![];
     let mut names = vec![];
     for (intern, g) in [(false, G_EXTERN), (true, G_INTERN)] {
@@ -195,6 +195,8 @@ fn run(ctx: &mut Ctx) {
     // inputs
     let ext_inputs: Vec<&str> = vec!["", "0", "00", "012", "01", "2", "0102", "1012", "E0", "0E"];
     let int_inputs: Vec<&str> = vec!["", "ab", "ab 12", "(x y)", "(x", ")", "a $", "((a)) 7", "Z"];
+    // schedule cap per job: the DFS is exhaustive below it; a job that reaches it is reported as capped
+    let cap: usize = if thorough { 20_000_000 } else { 3_000_000 };
     let mut jobs = vec![];
     let mut meta = vec![];
     for (u, name) in names.iter().enumerate() {
@@ -204,33 +206,68 @@ fn run(ctx: &mut Ctx) {
         jobs.push(implr::Job { unit: u, entry: 0, input: ins.join("|") });
         meta.push((u, "sequential".to_string()));
         // (b) two threads: every ordered pair of short inputs
-        let short: Vec<&str> = if intern { vec!["ab", "ab 12", "(x y)", ")", "(x"] } else { vec!["0", "012", "01", "2", "00", "E0"] };
+        let mut short: Vec<&str> = if intern { vec!["ab", "ab 12", "(x y)", ")", "(x", ""] } else { vec!["0", "012", "01", "2", "00", "E0", ""] };
+        if thorough {
+            // two threads stay cheap (C(a+b, a) schedules for a and b yield points): longer inputs
+            short.extend(if intern { vec!["((a)) 7", "a (b) c 1"] } else { vec!["0102", "01012", "1012"] });
+        }
         for a in &short {
             for b in &short {
-                jobs.push(implr::Job { unit: u, entry: 1, input: format!("{}|{}", a, b) });
+                jobs.push(implr::Job { unit: u, entry: cap, input: format!("{}|{}", a, b) });
                 meta.push((u, format!("2 threads {:?} | {:?}", a, b)));
             }
         }
-        // three threads, tiny inputs
-        let tiny: Vec<&str> = if intern { vec!["a", ")", "(a)"] } else { vec!["0", "2", "01"] };
+        // three threads, tiny inputs (quick: the empty input and one accepted / one rejected token)
+        // (three threads x two-token inputs exceed 10^8 schedules without partial-order reduction)
+        let tiny: Vec<&str> = if intern { vec!["", ")", "a"] } else { vec!["", "2", "0"] };
         let lim = if thorough { tiny.len() } else { 2 };
         for a in &tiny[..lim] {
             for b in &tiny[..lim] {
                 for c in &tiny[..lim] {
-                    jobs.push(implr::Job { unit: u, entry: 2, input: format!("{}|{}|{}", a, b, c) });
+                    jobs.push(implr::Job { unit: u, entry: cap, input: format!("{}|{}|{}", a, b, c) });
                     meta.push((u, format!("3 threads {:?} | {:?} | {:?}", a, b, c)));
                 }
             }
         }
     }
+    // jobs are independent processes' worth of work: run them on P runner processes, longest inputs first
     ctx.begin_case(1);
-    let res = implr::run(&built, &jobs, 300_000);
+    let par = crate::fw::ncpus().max(2) - 1;
+    let mut order: Vec<usize> = (0..jobs.len()).collect();
+    order.sort_by_key(|&i| std::cmp::Reverse((jobs[i].input.split('|').count(), jobs[i].input.len())));
+    let mut parts: Vec<Vec<usize>> = vec![vec![]; par];
+    for (k, i) in order.iter().enumerate() {
+        parts[k % par].push(*i);
+    }
+    let mut res: Vec<serde_json::Value> = vec![serde_json::Value::Null; jobs.len()];
+    std::thread::scope(|sc| {
+        let hs: Vec<_> = parts
+            .iter()
+            .map(|part| {
+                let sub: Vec<implr::Job> = part.iter().map(|&i| jobs[i].clone()).collect();
+                let built = &built;
+                sc.spawn(move || implr::run(built, &sub, 3_000_000))
+            })
+            .collect();
+        for (part, h) in parts.iter().zip(hs) {
+            let r = h.join().unwrap();
+            for (&i, v) in part.iter().zip(r) {
+                res[i] = v;
+            }
+        }
+    });
     ctx.end_case();
     let _ = std::fs::remove_dir_all(&bdir);
     for ((u, what), v) in meta.iter().zip(res.iter()) {
         let case = json!({"parser": names[*u], "what": what, "result": v});
         let Some(s) = v.get("ok").and_then(|x| x.as_str()) else {
-            let class = if v.get("timeout").is_some() { "parse-deadlock-or-hang" } else { "parse-crash" };
+            if v.get("timeout").is_some() && what != "sequential" {
+                // the DFS did not finish within the wall-clock budget: no verdict (a deadlock is
+                // reported by shuttle itself as a panic, a schedule cap as capped=1)
+                ctx.machinery(format!("{} {}: exploration exceeded the wall-clock budget", names[*u], what));
+                continue;
+            }
+            let class = if v.get("timeout").is_some() { "parse-hang" } else { "parse-crash" };
             ctx.violation(class, format!("{} {}: {}", names[*u], what, v), case);
             continue;
         };
@@ -241,6 +278,14 @@ fn run(ctx: &mut Ctx) {
         } else {
             let nthreads = if what.starts_with("3") { 3 } else { 2 };
             ctx.add("schedules", field("schedules"));
+            ctx.count("dfs_jobs");
+            if field("capped") != 0 {
+                ctx.count("dfs_jobs_capped");
+                ctx.count("caps_hit");
+                let mut l = ctx.p.notes.get("capped_jobs").and_then(|v| v.as_array().cloned()).unwrap_or_default();
+                l.push(json!(format!("{} {}", names[*u], what)));
+                ctx.note("capped_jobs", json!(l));
+            }
             ctx.add("parses", field("schedules") * nthreads);
             ctx.add("distinct_interleavings", field("interleavings"));
             if nthreads == 3 {
